@@ -53,7 +53,8 @@ Allowed(e) ==
       [] e.op = "stat"     -> {NoWire(StatReply(SeqSet(e.bs)))}
       [] e.op = "enum"     -> {NoWire(EnumReply(e.after, e.limit))}
       [] e.op = "enumall"  -> {NoWire(EnumReply(0, AllLimit))}
-      [] e.op = "enumwait" -> {WR(x.r, W(0, 0, x.w.fast)) : x \in EnumWire(0, AllLimit, "pos")}
+      [] e.op = "enumwait" -> {WR(EnumReply(0, AllLimit), W(0, 0, f)) : f \in (IF present # {} THEN {TRUE} ELSE BOOLEAN)}
+                              \* EnumerateBlobsOpts{MaxWait}: the client pages by itself; blobs present => at once
       [] e.op = "remove"   -> {NoWire(RemoveReply(SeqSet(e.bs)))}
   ELSE
     CASE e.op = "receive"  -> UploadWire("put", <<e.b>>)
